@@ -11,7 +11,8 @@
    (checks/C14.py) and named there as PARTIAL. *)
 From Coq Require Import ZArith String List Bool Sorted.
 From PushModel Require Import Base.Sx Base.Machine Base.F32 Model.Item Model.GraphT Model.Graph Model.State
-  Model.InstrBase Model.ICode Model.IGraph Model.Registry Model.Interp Model.RegistryAll Model.Cli
+  Model.InstrBase Model.ICode Model.IGraph Model.INeighbor Model.Registry Model.Interp Model.RegistryRand
+  Model.RegistryAll Model.Cli
   Spec.DetSpec Proofs.DeterminismProfile Proofs.Determinism Proofs.DeterminismIds Proofs.DeterminismCli.
 Import ListNotations.
 Open Scope Z_scope.
@@ -33,15 +34,19 @@ Print Assumptions C14_pure_sems_ignore_world.
 
 (* ---- 2. programs cannot synthesise an instruction from a name ---- *)
 (* One interpreter step adds to the set of instruction names occurring anywhere in
-   the state (EXEC, CODE, bound values, at any depth) at most the six re-arm names. *)
+   the state (EXEC, CODE, bound values, at any depth) at most the six re-arm names —
+   unless the state mentions CODE.RAND, the one instruction that builds code from
+   the names of the instruction cache. *)
 Theorem C14_instr_names_closed_general : forall (FO : FloatOps) p w s fin w' s' n,
+  instr_name_in_state s (s2l "CODE.RAND") = false ->
   step p full_registry w s = Ok (fin, w', s') ->
   instr_name_in_state s' n = true ->
   instr_name_in_state s n = true \/ name_in rearm_names n = true.
 Proof. exact @instr_names_closed_general. Qed.
 Print Assumptions C14_instr_names_closed_general.
 
-(* hence "mentions no world-reading instruction" is an invariant of execution *)
+(* hence "mentions no world-reading instruction" (GRAPH.NODE*ADD, the nine RAND
+   instructions — CODE.RAND among them) is an invariant of execution *)
 Theorem C14_instr_names_closed : forall (FO : FloatOps) p w s fin w' s',
   no_world_reading s -> step p full_registry w s = Ok (fin, w', s') -> no_world_reading s'.
 Proof. exact @instr_names_closed_lemma. Qed.
@@ -63,42 +68,66 @@ Proof. exact @world_independent_run. Qed.
 Print Assumptions C14_world_independent_run.
 
 (* ---- 4. independence of the build profile ---- *)
-(* Every entry of the registry except CODE.INSERT returns the same result under
-   Debug and Release on EVERY state (all but CODE.EXTRACT and CODE.INSERT never see
-   the profile; CODE.EXTRACT's usize subtractions never go below zero). *)
+(* Every entry of the registry outside [profile_exceptions] returns the same result
+   under Debug and Release on EVERY state (all but CODE.EXTRACT never see the
+   profile; CODE.EXTRACT's usize subtractions never go below zero). *)
 Theorem C14_profile_independent : forall (FO : FloatOps),
   Forall (fun e : string * sem =>
-            fst e <> "CODE.INSERT" -> forall w s, snd e Debug w s = snd e Release w s)
+            lit_in [ "CODE.INSERT"; "LIST.NEIGHBOR*IDS"; "LIST.NEIGHBOR*BVALS"; "LIST.NEIGHBOR*IVALS";
+                     "LIST.NEIGHBOR*FVALS"; "BOOLVECTOR.RAND" ] (fst e) = false ->
+            forall w s, snd e Debug w s = snd e Release w s)
          full_table.
 Proof. exact @sems_profile_blind. Qed.
 Print Assumptions C14_profile_independent.
 
-(* The exception, with its exact side condition: CODE.INSERT agrees whenever the
-   index operand read as usize is non-negative, i.e. top INTEGER >= -2^64 — true of
-   every i32.  (Outside the registry table: LIST.NEIGHBOR* depend on the profile
-   through [sq_term]; their condition is C20_profile_independent.) *)
+(* The exceptions, with their exact side conditions.
+   CODE.INSERT agrees whenever the index operand read as usize is non-negative,
+   i.e. top INTEGER >= -2^64 — true of every i32. *)
 Theorem C14_profile_independent_insert : forall (FO : FloatOps) w s,
   match st_int s with idx :: _ => - two64 <= idx | [] => True end ->
   purep code_insert Debug w s = purep code_insert Release w s.
 Proof. intros FO. exact insert_profile_blind. Qed.
 Print Assumptions C14_profile_independent_insert.
 
-(* whole executions: for states that do not mention CODE.INSERT (an invariant, by 2.) *)
+(* LIST.NEIGHBOR* agree whenever the neighbourhood search on their (clamped) operands
+   does: that is C20_profile_independent's size condition (beyond it powf(d, 2.0) and
+   d * d differ in the last bit).  BOOLVECTOR.RAND is a RAND instruction (outside
+   this property); it differs only when `num_active_bits + 1` overflows an i32. *)
+Theorem C14_profile_independent_neighbor_ids : forall (FO : FloatOps) w s,
+  match st_int s, st_float s with
+  | t2 :: t1 :: t0 :: _, fv :: _ => nbr_call Debug t2 t1 t0 fv = nbr_call Release t2 t1 t0 fv
+  | _, _ => True
+  end ->
+  purep list_neighbor_ids Debug w s = purep list_neighbor_ids Release w s.
+Proof. exact @neighbor_ids_profile_blind. Qed.
+Print Assumptions C14_profile_independent_neighbor_ids.
+
+Theorem C14_profile_independent_neighbor_vals : forall (FO : FloatOps) A (f : item -> Z -> A) push w s,
+  match tl (st_int s), st_float s with
+  | t2 :: t1 :: t0 :: _, fv :: _ => nbr_call Debug t2 t1 t0 fv = nbr_call Release t2 t1 t0 fv
+  | _, _ => True
+  end ->
+  purep (list_neighbor_vals f push) Debug w s = purep (list_neighbor_vals f push) Release w s.
+Proof. exact @neighbor_vals_profile_blind. Qed.
+Print Assumptions C14_profile_independent_neighbor_vals.
+
+(* whole executions: for states that mention none of the exceptions, nor CODE.RAND
+   (which could build one) — an invariant, by 2. *)
 Theorem C14_profile_independent_steps : forall (FO : FloatOps) w k s,
-  mentions_b [ "CODE.INSERT" ] s = false ->
+  mentions_b profile_names s = false ->
   steps Debug full_registry k w s = steps Release full_registry k w s.
 Proof. exact @profile_independent_steps. Qed.
 Print Assumptions C14_profile_independent_steps.
 
 Theorem C14_profile_independent_run : forall (FO : FloatOps) clock w s,
-  mentions_b [ "CODE.INSERT" ] s = false ->
+  mentions_b profile_names s = false ->
   run Debug full_registry clock w s = run Release full_registry clock w s.
 Proof. exact @profile_independent_run. Qed.
 Print Assumptions C14_profile_independent_run.
 
 (* the property as worded: any two profiles, any two worlds, same outcome and state *)
 Theorem C14_deterministic_run : forall (FO : FloatOps) p1 p2 clock w1 w2 s,
-  mentions_b (world_reading_names ++ [ "CODE.INSERT" ]) s = false ->
+  mentions_b (world_reading_names ++ profile_names) s = false ->
   drop_world (run p1 full_registry clock w1 s) = drop_world (run p2 full_registry clock w2 s).
 Proof. exact @deterministic_run. Qed.
 Print Assumptions C14_deterministic_run.
@@ -121,8 +150,10 @@ Print Assumptions C14_node_ids_unique_under_interleaving.
 
 (* ---- 6. the command-line front end ---- *)
 (* s0 = the state the parser left (Model/Parser.v: parse_program).  If BIN occurs
-   nowhere in s0 as an identifier, s0 mentions none of the four instructions that
-   push a computed string on the NAME stack, and the library's run ends with
+   nowhere in s0 as an identifier, s0 mentions none of the instructions that push
+   a computed string on the NAME stack (NAME.CAT CODE.PRINT GRAPH.PRINT
+   GRAPH.PRINT*DIFF NAME.RAND NAME.RANDBOUNDNAME) and no RAND instruction
+   ([cli_excluded]), and the library's run ends with
    NoErrors (the program terminates within the library's limits), then the CLI loop
    (which has no limits) stops too, in a state that equals the library's final
    state in EVERY field except the binding table — all typed stacks, EXEC, CODE,
@@ -130,7 +161,7 @@ Print Assumptions C14_node_ids_unique_under_interleaving.
    on every name but BIN.  The final worlds are equal as well. *)
 Theorem C14_cli_equals_library : forall (FO : FloatOps) p clock w arg0 s0 w' sl,
   mentions_name_b [ "BIN" ] s0 = false ->
-  mentions_b [ "NAME.CAT"; "CODE.PRINT"; "GRAPH.PRINT"; "GRAPH.PRINT*DIFF" ] s0 = false ->
+  mentions_b cli_excluded s0 = false ->
   run p full_registry clock w s0 = Ok (NoErrors, w', sl) ->
   exists k sc,
     cli_watch p full_registry k w arg0 s0 = Ok (true, w', sc) /\
@@ -138,6 +169,22 @@ Theorem C14_cli_equals_library : forall (FO : FloatOps) p clock w arg0 s0 w' sl,
     (forall n, n <> BIN -> bind_get (st_bind sc) n = bind_get (st_bind sl) n).
 Proof. exact @cli_equals_library_lemma. Qed.
 Print Assumptions C14_cli_equals_library.
+
+(* ---------------------------------------------------------------------- *)
+(* the name lists the statements refer to, spelled out *)
+Example C14_name_lists :
+  world_reading_names =
+    [ "GRAPH.NODE*ADD"; "BOOLEAN.RAND"; "INTEGER.RAND"; "FLOAT.RAND"; "CODE.RAND"; "NAME.RAND";
+      "NAME.RANDBOUNDNAME"; "BOOLVECTOR.RAND"; "INTVECTOR.RAND"; "FLOATVECTOR.RAND" ] /\
+  profile_names =
+    [ "CODE.INSERT"; "LIST.NEIGHBOR*IDS"; "LIST.NEIGHBOR*BVALS"; "LIST.NEIGHBOR*IVALS"; "LIST.NEIGHBOR*FVALS";
+      "BOOLVECTOR.RAND"; "CODE.RAND" ] /\
+  cli_excluded =
+    [ "NAME.CAT"; "CODE.PRINT"; "GRAPH.PRINT"; "GRAPH.PRINT*DIFF"; "NAME.RAND"; "NAME.RANDBOUNDNAME";
+      "BOOLEAN.RAND"; "INTEGER.RAND"; "FLOAT.RAND"; "CODE.RAND"; "NAME.RAND"; "NAME.RANDBOUNDNAME";
+      "BOOLVECTOR.RAND"; "INTVECTOR.RAND"; "FLOATVECTOR.RAND" ] /\
+  rearm_names = [ "CODE.POP"; "EXEC.Y"; "EXEC.LOOP"; "CODE.LOOP"; "INDEX.INCREASE"; "INTVECTOR.LOOP" ].
+Proof. repeat split; reflexivity. Qed.
 
 (* ---------------------------------------------------------------------- *)
 (* non-vacuity and necessity of the hypotheses *)
@@ -150,9 +197,10 @@ Definition w9 : world := {| w_next_node := 9; w_tape := [ 4 ] |}.
 (* the hypotheses of 3., 4. and 6. hold of an ordinary program, which runs to completion *)
 Example C14_nonvacuous_run : forall (FO : FloatOps),
   no_world_reading ex_state /\
-  mentions_b (world_reading_names ++ [ "CODE.INSERT" ]) ex_state = false /\
+  instr_name_in_state ex_state (s2l "CODE.RAND") = false /\
+  mentions_b (world_reading_names ++ profile_names) ex_state = false /\
   mentions_name_b [ "BIN" ] ex_state = false /\
-  mentions_b [ "NAME.CAT"; "CODE.PRINT"; "GRAPH.PRINT"; "GRAPH.PRINT*DIFF" ] ex_state = false /\
+  mentions_b cli_excluded ex_state = false /\
   exists sl, run Debug full_registry (fun _ => 0) w0 ex_state = Ok (NoErrors, w0, sl) /\ st_int sl = [ 3 ].
 Proof.
   intros FO. repeat (split; [reflexivity|]). eexists. split; [vm_compute; reflexivity|reflexivity].
